@@ -85,7 +85,7 @@ class C08(Check):
             return {'arbitrary label order': 'K=2,P<=5; K=3,P<=5', 'm': '1..2', 'spreads': 'symbolic >= 0',
                     'run-length form': 'K=3,P<=7; K=4,P<=6; K=5,P<=6; m 1..2'}
         return {'arbitrary label order': 'K=2,P<=7; K=3,P<=6', 'm': '1..3', 'spreads': 'symbolic >= 0',
-                'run-length form': 'K<=4,P<=9; K=5,P<=9; K=6,P=8; m 1..3'}
+                'run-length form': 'K=3,P<=9,m<=3; K=4,P<=8,m<=2; K=5,P<=6,m<=2; K=5,P=7,m=1; K=6,P<=7,m=1'}
 
     def configs(self, tier):
         q = tier == 'quick'
@@ -95,10 +95,11 @@ class C08(Check):
             cfgs.append(Config('labels_K%d_P%d' % (K, P), self.step,
                                {'K': K, 'P': P, 'mmax': 2 if q else 3, 'mode': 'labels'},
                                split=3, witness_every=23, max_fanout=128))
-        for (K, P) in ([(3, 6), (3, 7), (4, 3), (4, 4), (4, 5), (4, 6), (5, 4), (5, 6)] if q else
-                       [(3, 8), (3, 9), (4, 4), (4, 6), (4, 7), (4, 8), (4, 9), (5, 5), (5, 7), (5, 9), (6, 8)]):
+        for (K, P, mm) in ([(3, 6, 2), (3, 7, 2), (4, 3, 2), (4, 4, 2), (4, 5, 2), (4, 6, 2), (5, 4, 2), (5, 6, 2)] if q else
+                           [(3, 8, 3), (3, 9, 3), (4, 4, 2), (4, 6, 2), (4, 7, 2), (4, 8, 2), (5, 5, 2), (5, 6, 2),
+                            (5, 7, 1), (6, 6, 1), (6, 7, 1)]):
             cfgs.append(Config('sizes_K%d_P%d' % (K, P), self.step,
-                               {'K': K, 'P': P, 'mmax': 2 if q else 3, 'mode': 'sizes'},
+                               {'K': K, 'P': P, 'mmax': mm, 'mode': 'sizes'},
                                split=3, witness_every=37, max_fanout=128))
         return cfgs
 
